@@ -182,4 +182,6 @@ mut('C08-seed-from-epoch-only-after-first', MOD, "        let seed = self.seed.u
 mut('C14-insert-uses-tab-for-wide-chars', PRE, '                    " ".to_string() + c.str', '                    (if c.str.len() > 3 { "\\t" } else { " " }).to_string() + c.str')
 mut('C18-backtrace-skips-first-match', TXT, "            MatchOp::Match => {\n                i -= 1;\n                j -= 1;\n                matches.push((i, j));", "            MatchOp::Match => {\n                i -= 1;\n                j -= 1;\n                if i + j > 0 || a_words.len() < 4 {\n                    matches.push((i, j));\n                }")
 mut('C07-interleaved-restarts-at-zero', LOAD, "                let mut idx = (self.idx + 1) % self.finished.len();\n                while idx != self.idx && self.finished[idx] {", "                let mut idx = if self.finished.len() > 3 && self.finished[0] { 1 } else { (self.idx + 1) % self.finished.len() };\n                while idx != self.idx && self.finished[idx] {")
+# hand-made multi-site patch kept as a file: mutants/C05-ticket-after-unlock.patch (ticket number taken after the lock is released:
+# a race *between* two hook points, caught by the real-thread contention runs)
 print(len(made), "mutants written")
